@@ -43,7 +43,7 @@ def rand_dataset(rng, max_rows=7, max_points=4, max_classes=4, ties=None, groupi
     for j in range(n_test):
         if rng.random() < 0.12:      # a validation point where every class utility is exactly 0 (null usually is not)
             U[j] = [0.0] * len(classes)
-    grouping = grouping or rng.choice(["default", "default", "grouped", "grouped", "fork", "ndarray", "permuted"])
+    grouping = grouping or rng.choice(["default", "default", "grouped", "grouped", "fork", "ndarray", "permuted", "cand3"])
     if grouping == "default":
         owner = list(range(n_train))
         gspec = {"kind": "default"}
@@ -52,6 +52,20 @@ def rand_dataset(rng, max_rows=7, max_points=4, max_classes=4, ties=None, groupi
         units = sorted(ids)
         owner = [units.index(i) for i in ids]
         gspec = {"kind": rng.choice(["grouped", "ndarray", "edited", "edited"]), "ids": ids}
+    elif grouping == "cand3":
+        # units with THREE candidate values: a row is tied to (unit == 1) -- present in the default world -- or to (unit == 2) -- a
+        # "repaired" variant that is absent from it; every unit keeps at least one present row; absent rows belong to no unit
+        k = rng.randint(1, n_train)
+        first = rng.sample(range(n_train), k)                  # one present row per unit
+        cand_owner, owner = [], []
+        for r in range(n_train):
+            if r in first:
+                u, cnd = first.index(r), 1
+            else:
+                u, cnd = rng.randrange(k), rng.choice([1, 2, 2])
+            cand_owner.append([u, cnd])
+            owner.append(u if cnd == 1 else k)
+        gspec = {"kind": "cand3", "k": k, "cand_owner": cand_owner}
     elif grouping in ("grouped", "ndarray"):
         k = rng.randint(1, n_train)
         ids_pool = rng.sample([-3, 0, 1, 2, 5, 9, 14, 100, 7, 8, 21, 33, -40, 64, 1000, 12345], k)
@@ -70,7 +84,7 @@ def rand_dataset(rng, max_rows=7, max_points=4, max_classes=4, ties=None, groupi
         owner = [u for u, r in enumerate(reps) for _ in range(r)]
         gspec = {"kind": "fork", "reps": reps}
     return {"n_train": n_train, "n_test": n_test, "labels": labels, "D": D, "U": U, "nulls": nulls,
-            "owner": owner, "n_units": max(owner) + 1, "grouping": gspec, "utility": "table",
+            "owner": owner, "n_units": gspec["k"] if gspec["kind"] == "cand3" else max(owner) + 1, "grouping": gspec, "utility": "table",
             "refit_history": rng.random() < 0.3,
             "y_test": [rng.choice(classes) for _ in range(n_test)]}
 
@@ -177,6 +191,10 @@ def make_provenance(ds):
         return Provenance(data=np.array(g["ids"], dtype=int))
     if g["kind"] == "ndarray":
         return np.array(g["ids"], dtype=int)
+    if g["kind"] == "cand3":
+        from datascope.utility.provenance import Units
+        units = Units(units=g["k"], candidates=3)
+        return Provenance([units[u] == cnd for u, cnd in g["cand_owner"]])
     if g["kind"] == "edited":
         # the DEFAULT provenance (one unit per row, in row order) whose rows are then reassigned IN PLACE so that row r belongs to
         # unit owner[r] (a non-identity permutation): a container that started out "simple" and no longer is
